@@ -155,11 +155,80 @@ def run(chk):
 OPTIONAL_KW = {"aten.div": ["rounding_mode"], "aten.copy_": ["non_blocking"]}  # from the aten schemas (div.Tensor_mode, copy_)
 
 
-def mutation_rules(chk, hs):
+_STORAGE_SHARING = ("detach", "view", "view_as", "reshape", "squeeze", "unsqueeze", "t", "transpose", "permute", "expand", "expand_as", "narrow", "select", "contiguous", "to", "type_as", "requires_grad_", "flatten", "unflatten", "alias")
+
+
+def aliased_operand_field(repo, mi, e, fields, depth=2):
+    """The operand field (`x._scale`, ...) whose OBJECT or storage the value of `e` may be, or None: the field itself, a storage-sharing method of
+    it (`detach()`, views; `contiguous()` / `to()` return their receiver when nothing changes), a selection among candidates (`max(a, b)` of the
+    builtins, `a if c else b`, `a or b`), or what a helper of the package returns on some path."""
+    import ast
+    from ..core import U, bind_call, paths_of
+    if e is None:
+        return None
+    t = U(e)
+    if t in fields:
+        return t
+    if isinstance(e, ast.Call):
+        f = e.func
+        if isinstance(f, ast.Attribute) and f.attr in _STORAGE_SHARING and not U(f.value).startswith("torch"):
+            return aliased_operand_field(repo, mi, f.value, fields, depth)
+        if isinstance(f, ast.Name) and f.id in ("max", "min") and len(e.args) >= 2:
+            for a in e.args:
+                r = aliased_operand_field(repo, mi, a, fields, depth)
+                if r:
+                    return r
+            return None
+        if isinstance(f, ast.Name) and depth > 0:
+            r = repo.resolve(mi, f.id)
+            if r is not None and isinstance(r[1], ast.FunctionDef) and not r[1].decorator_list:
+                env = bind_call(r[1], e)
+                if env is None:
+                    return None
+                try:
+                    ps = paths_of(r[1], env)
+                except Exception:
+                    return None
+                for p in ps:
+                    if p.end[0] == "return" and p.end[1] is not None:
+                        a = aliased_operand_field(repo, r[0], p.end[1], fields, depth - 1)
+                        if a:
+                            return a
+        return None
+    if isinstance(e, ast.Subscript) and isinstance(e.slice, ast.Constant) and isinstance(e.slice.value, int) and isinstance(e.value, ast.Call) and isinstance(e.value.func, ast.Name) and depth > 0:
+        # helper(...)[k]: the k-th element of the tuples the helper returns
+        r = repo.resolve(mi, e.value.func.id)
+        if r is not None and isinstance(r[1], ast.FunctionDef) and not r[1].decorator_list:
+            env = bind_call(r[1], e.value)
+            if env is None:
+                return None
+            try:
+                ps = paths_of(r[1], env)
+            except Exception:
+                return None
+            for p in ps:
+                ret = p.end[1] if p.end[0] == "return" else None
+                if isinstance(ret, (ast.Tuple, ast.List)) and -len(ret.elts) <= e.slice.value < len(ret.elts):
+                    a = aliased_operand_field(repo, r[0], ret.elts[e.slice.value], fields, depth - 1)
+                    if a:
+                        return a
+        return None
+    if isinstance(e, ast.IfExp):
+        return aliased_operand_field(repo, mi, e.body, fields, depth) or aliased_operand_field(repo, mi, e.orelse, fields, depth)
+    if isinstance(e, ast.BoolOp):
+        for v in e.values:
+            a = aliased_operand_field(repo, mi, v, fields, depth)
+            if a:
+                return a
+    return None
+
+
+def ownership_rule(chk, hs, rule="C05.R18", views=True):
+    """(a) of C05.R18: while a handler writes scales / payloads in place, every handler result owns its scale and payload (or is a view of its
+    operand's).  `views=False` leaves out the view handlers (their residual defect is recorded once, under C05).  Returns the number of obligations."""
     import ast
     from ..core import U, atoms, paths_of, positional_params
     from ..hand import is_ctor, ctor_fields
-    from ..handrules import writeback_fallback
     repo = chk.repo
     qb = hs["qbytes"]
     # ---- (a) in-place scale writers vs shared scale objects
@@ -175,8 +244,9 @@ def mutation_rules(chk, hs):
             for p in paths_of(h.fn):
                 if p.end[0] == "return" and is_ctor(p.end[1]):
                     f = ctor_fields(repo, "QBytesTensor", p.end[1], raw=True)
-                    if f and U(f["scale"]) in [f"{x}._scale" for x in tparams] + [f"{x}[0]._scale" for x in tparams]:
-                        sharers.append((h, p.end[2], U(f["scale"])))
+                    al = aliased_operand_field(repo, h.mi, f["scale"], [f"{x}._scale" for x in tparams] + [f"{x}[{i_}]._scale" for x in tparams for i_ in (0, 1)]) if f else None
+                    if al:
+                        sharers.append((h, p.end[2], U(f["scale"]) if U(f["scale"]) == al else f"{U(f['scale'])[:50]} (may be {al})"))
                         break
     # the same for payloads: the scalar mul / div handlers wrap their operand's `_data` object with a new scale, and copy_ writes payloads in place
     dwriters, dsharers = [], []
@@ -192,15 +262,19 @@ def mutation_rules(chk, hs):
             for p in paths_of(h.fn):
                 if p.end[0] == "return" and is_ctor(p.end[1]):
                     f = ctor_fields(repo, "QBytesTensor", p.end[1], raw=True)
-                    if f and U(f["data"]) in [f"{x}._data" for x in tparams]:
-                        dsharers.append((h, p.end[2], U(f["data"])))
+                    # a payload that is the operand's own object (views made by the op itself are new tensor objects over shared storage: the aliasing ops)
+                    al = None
+                    if f and not (isinstance(f["data"], ast.Call) and U(f["data"].func) == opn):
+                        al = aliased_operand_field(repo, h.mi, f["data"], [f"{x}._data" for x in tparams] + [f"{x}[{i_}]._data" for x in tparams for i_ in (0, 1)])
+                    if al:
+                        dsharers.append((h, p.end[2], U(f["data"]) if U(f["data"]) == al else f"{U(f['data'])[:50]} (may be {al})"))
                         break
     n = len(writers) + len(dwriters)
     for h, nd in dwriters:
-        chk.ok("C05.R18", f"{h.mi.rel}:{nd.lineno}", f"{h.name} writes a payload in place (`{U(nd)[:50]}`): every handler result must own its payload or be a view of its operand's ({len(dsharers)} handler(s) wrap their operand's payload object)")
+        chk.ok(rule, f"{h.mi.rel}:{nd.lineno}", f"{h.name} writes a payload in place (`{U(nd)[:50]}`): every handler result must own its payload or be a view of its operand's ({len(dsharers)} handler(s) wrap their operand's payload object)")
     for h, line, txt in dsharers:
         n += 1
-        chk.require("C05.R18", f"{h.mi.rel}:{line}", not dwriters, f"{h.name} wraps its operand's payload object `{txt}` in its result under another scale, and {sorted({w.name for w, _ in dwriters})} write(s) payloads in place", h.name, "result shares its operand's payload object",
+        chk.require(rule, f"{h.mi.rel}:{line}", not dwriters, f"{h.name} wraps its operand's payload object `{txt}` in its result under another scale, and {sorted({w.name for w, _ in dwriters})} write(s) payloads in place", h.name, "result shares its operand's payload object",
                     "r = q * 2.0; r.copy_(y) (or r.add_(1)): q is overwritten too (r and q hold the same `_data` tensor under different scales); q moves by 2.3 .. 3.7 where the float program leaves it unchanged")
     # one obligation per handler that hands its operand's scale object to its result while some handler writes scales in place.  The aliasing
     # handlers (views) are told apart: their payload is a view of the operand's, so a shared scale is what keeps both consistent - the
@@ -209,16 +283,29 @@ def mutation_rules(chk, hs):
     _ALIAS = {"aten.select", "aten.slice", "aten.transpose", "aten.view", "aten.unsqueeze", "aten.permute", "aten.expand", "aten.t", "aten.squeeze", "aten._unsafe_view", "aten.narrow", "aten.unbind", "aten.split", "aten.detach", "aten.alias"}
     wnames = sorted({h.name for h, _ in writers})
     for h, nd in writers:
-        chk.ok("C05.R18", f"{h.mi.rel}:{nd.lineno}", f"{h.name} writes a scale in place (`{U(nd)[:50]}`): every handler result must own its scale ({len(sharers)} handler(s) examined hand their operand's)")
+        chk.ok(rule, f"{h.mi.rel}:{nd.lineno}", f"{h.name} writes a scale in place (`{U(nd)[:50]}`): every handler result must own its scale ({len(sharers)} handler(s) examined hand their operand's)")
     for h, line, txt in sharers:
         is_view = all(o in _ALIAS for o in h.ops)
+        if is_view and not views:
+            continue
         n += 1
         if is_view:
-            chk.require("C05.R18", f"{h.mi.rel}:{line}", not writers, f"{h.name} (a view: {sorted(h.ops)[:3]}) shares `{txt}` with its operand, and {wnames} write(s) scales in place", h.name, "write through a per-tensor view rescales the whole operand",
+            chk.require(rule, f"{h.mi.rel}:{line}", not writers, f"{h.name} (a view: {sorted(h.ops)[:3]}) shares `{txt}` with its operand, and {wnames} write(s) scales in place", h.name, "write through a per-tensor view rescales the whole operand",
                         "q[0:2].copy_(p[0:2]) rescales the rows of q that were not written (the view and q hold the same per-tensor scale)")
         else:
-            chk.require("C05.R18", f"{h.mi.rel}:{line}", not writers, f"{h.name} hands its operand's scale object `{txt}` to its result (a new tensor, not a view), and {wnames} write(s) scales in place", h.name, "result shares its operand's scale object",
+            chk.require(rule, f"{h.mi.rel}:{line}", not writers, f"{h.name} hands its operand's scale object `{txt}` to its result (a new tensor, not a view), and {wnames} write(s) scales in place", h.name, "result shares its operand's scale object",
                         "r = -q; r.copy_(p) (or r.add_(1)): q is rescaled too - r and q hold the same scale tensor")
+    return n
+
+
+def mutation_rules(chk, hs):
+    import ast
+    from ..core import U, atoms, paths_of, positional_params
+    from ..hand import is_ctor, ctor_fields
+    from ..handrules import writeback_fallback, schema_writeback
+    repo = chk.repo
+    qb = hs["qbytes"]
+    n = ownership_rule(chk, hs, "C05.R18", views=True)
     # ---- (b) layout agreement before the first mutation of copy_
     for h in qb:
         if "aten.copy_" not in h.ops:
@@ -280,7 +367,61 @@ def mutation_rules(chk, hs):
         # ... and the write-back fallback, where there is one, leaves a quantized destination to the out-of-place fallback on no path
         for p_ in paths_of(disp):
             if p_.end and p_.end[0] == "return" and isinstance(p_.end[1], ast.Call):
+                sw = schema_writeback(repo, U(p_.end[1].func))
+                if sw is not None:
+                    hname = U(p_.end[1].func)
+                    site_ = f"{sw['mi'].rel}:{sw['fn'].lineno}"
+                    n += 1
+                    if not sw["copies"]:
+                        chk.bad("C05.R18", site_, hname, "write-back fallback never writes back", f"NOT: {hname} re-issues the op on dequantized stand-ins but no `<destination>.copy_(...)` is found in a loop over the recorded destinations (list: {sw['pairs']})",
+                                "q.relu_() / q.zero_() / q.masked_fill_(m, 0): the operand comes back unchanged, no error")
+                    elif any(g for _, g in sw["copies"]):
+                        chk.unknown("C05.R18", site_, f"{hname}: the write-back at line {sw['copies'][0][0]} is under a condition that is not a size test ({[g for _, g in sw['copies'] if g][0][:2]})")
+                    else:
+                        chk.ok("C05.R18", site_, f"{hname}: every recorded destination is copied into (line {sw['copies'][0][0]}), under size tests only")
+                    q_ = sw["quant"]
+                    n += 1
+                    if q_ is None:
+                        chk.unknown("C05.R18", site_, f"{hname}: the scale of the written-back values was not found (a `...Quantizer.apply(values, qtype, axis, scale)` in the helper or in one callee)")
+                    else:
+                        sc, dpar, qfn = q_
+                        dscale = f"{dpar}._scale"
+                        bounded = U(sc) == dscale or (isinstance(sc, ast.Call) and U(sc.func).split(".")[-1] in ("maximum", "max", "fmax", "where", "clamp", "clamp_min") and any(U(x) == dscale for x in ast.walk(sc)))
+                        quotient = isinstance(sc, ast.BinOp) and not any(U(x) == dscale for x in ast.walk(sc))
+                        what = f"{qfn.name}: the written-back values are quantized with `{U(sc)[:70]}`: bounded below by the destination's scale = {bounded}"
+                        qsite = f"{sw['mi'].rel}:{qfn.lineno}"
+                        if bounded:
+                            chk.ok("C05.R18", qsite, what)
+                        elif quotient:
+                            chk.bad("C05.R18", qsite, hname, "written-back scale can be null", "NOT: " + what,
+                                    "q.zero_() (or fill_(0), clamp_(0, 0), masked_fill_ of every element) leaves a null scale; q.copy_(x) / q[i] = x then quantize x with it: zeros instead of x (each step alone is within tolerance)")
+                        else:
+                            chk.unknown("C05.R18", qsite, what)
+                    continue
                 wb = writeback_fallback(repo, U(p_.end[1].func))
+                # (g) the scale a written-back destination ends up with is bounded below by the one it had: `absmax(result) / qmax` alone is null for a null
+                #     result (zero_, fill_(0), masked_fill_ of everything), and copy_ quantizes every later plain source with the destination's scale
+                for kind, hp_ in wb or ():
+                    if kind != "writeback" or hp_.end[1] is None:
+                        continue
+                    for c in ast.walk(hp_.end[1]):
+                        if isinstance(c, ast.Call) and U(c.func).endswith("Quantizer.apply") and len(c.args) >= 4:
+                            sc = c.args[3]
+                            dests = {U(x.value) for x in ast.walk(hp_.end[1]) if isinstance(x, ast.Attribute) and x.attr == "copy_"} | {U(hp_.end[1])}
+                            dscale = {f"{d}._scale" for d in dests}
+                            bounded = U(sc) in dscale or (isinstance(sc, ast.Call) and U(sc.func).split(".")[-1] in ("maximum", "max", "fmax", "where", "clamp", "clamp_min") and any(U(x) in dscale for x in ast.walk(sc)))
+                            quotient = isinstance(sc, ast.BinOp) and not any(U(x) in dscale for x in ast.walk(sc))
+                            n += 1
+                            site_ = f"{ci_.mod.rel}:{hp_.end[2]}"
+                            what = f"{U(p_.end[1].func)}: the written-back result is quantized with `{U(sc)[:70]}`: bounded below by the destination's scale = {bounded}"
+                            if bounded:
+                                chk.ok("C05.R18", site_, what)
+                            elif quotient:
+                                chk.bad("C05.R18", site_, U(p_.end[1].func), "written-back scale can be null", "NOT: " + what,
+                                        "q.zero_() (or fill_(0), clamp_(0, 0), masked_fill_ of every element) leaves a null scale; q.copy_(x) / q[i] = x then quantize x with it: zeros instead of x (each step alone is within tolerance)")
+                            else:
+                                chk.unknown("C05.R18", site_, what)
+                            break
                 for kind, hp_ in wb or ():
                     if kind != "fallback":
                         continue
